@@ -5,6 +5,7 @@
 -/
 import Crs.Format
 import CrsProofs.Lines
+import CrsProofs.FormatFile
 namespace Crs.Props
 open Crs Crs.Format Crs.Pat
 
@@ -169,6 +170,129 @@ theorem C09_check_iff (b : Bytes) (lint : Bool) :
 theorem C09_error_writes_nothing (b : Bytes) (e : Fault) (h : formatFile b = .error e) :
     ∀ out, formatFile b ≠ .ok out := by
   intro out h'; rw [h] at h'; simp at h'
+
+/-! ### idempotence -/
+
+/-- no line of the file ends in `\r\r\n` (or `\r\r` at end of file). Files that do are the known finding D22:
+    the line scanner drops one `\r` per pass, so each run changes them again. -/
+def NoCRCR (b : Bytes) : Prop := ∀ l ∈ scanLines b, l.getLast? ≠ some '\r'
+
+theorem hasHeader_drop (ls : List Bytes) (h : hasHeader ls = true) :
+    (ls = [header1, header2] ∧ ls.drop 3 = []) ∨ ls = header1 :: header2 :: [] :: ls.drop 3 := by
+  match ls, h with
+  | [a, b], h =>
+    simp only [hasHeader, Bool.and_eq_true, beq_iff_eq] at h
+    left; rw [h.1, h.2]; simp
+  | a :: b :: c :: rest, h =>
+    simp only [hasHeader, Bool.and_eq_true, beq_iff_eq, List.isEmpty_iff] at h
+    right; rw [h.1.1, h.1.2, h.2]; simp
+
+theorem all_of_subset {α} (p : α → Bool) (a b : List α) (hs : ∀ x ∈ a, x ∈ b) (h : b.all p = true) : a.all p = true := by
+  simp only [List.all_eq_true] at h ⊢
+  exact fun x hx => h x (hs x hx)
+
+/-- **C09 (idempotence).** Formatting the output of a successful format succeeds and returns it unchanged —
+    for every input file without `\r\r` line ends. -/
+theorem C09_idempotent (b out : Bytes) (hcr : NoCRCR b) (h : formatFile b = .ok out) :
+    formatFile out = .ok out := by
+  -- first run
+  have hX : ∀ l ∈ scanLines b, Good l := fun l hl => ⟨scanLines_noNl b l hl, hcr l hl⟩
+  have hP : parsedLines b = (scanLines b).map trimLeftSpTab := by
+    unfold parsedLines
+    apply scanLines_unlines
+    · intro l hl; simp only [List.mem_map] at hl; obtain ⟨x, hx, rfl⟩ := hl; exact (good_trimLeft x (hX x hx)).1
+    · intro l hl; simp only [List.mem_map] at hl; obtain ⟨x, hx, rfl⟩ := hl; exact (good_trimLeft x (hX x hx)).2
+  unfold formatFile at h
+  split at h
+  · simp at h
+  rename_i hacc
+  simp only [Bool.not_eq_true, Bool.not_eq_false] at hacc
+  split at h
+  · simp at h
+  rename_i ls hfl
+  simp only [Except.ok.injEq] at h
+  obtain ⟨R1, R2, R3⟩ := formatLines_reemit (parsedLines b) 0 ls (parsedLines_leftTrimmed b) hfl
+  have R2' := R2 (by rw [hP]; simpa using hacc)
+  have R3' := R3 (by rw [hP]; intro l hl; simp only [List.mem_map] at hl; obtain ⟨x, hx, rfl⟩ := hl; exact good_trimLeft x (hX x hx))
+  -- the body after the header
+  generalize hbody : (if hasHeader ls = true then List.drop 3 ls else ls) = body at h
+  have hsub : ∀ x ∈ body, x ∈ ls := by
+    intro x hx; rw [← hbody] at hx
+    split at hx
+    · exact List.mem_of_mem_drop hx
+    · exact hx
+  have hbf : formatLines (body.map trimLeftSpTab) 0 = some body := by
+    rw [← hbody]
+    split
+    · rename_i hh
+      rcases hasHeader_drop ls hh with ⟨_, e⟩ | e
+      · rw [e]; rfl
+      · rw [e] at R1
+        simp only [List.map_cons, header_trim.1, header_trim.2] at R1
+        obtain ⟨l1, k1, r1, p1, f1, e1⟩ := formatLines_cons_inv _ _ _ _ R1
+        rw [processLine_header1] at p1
+        simp only [Option.some.injEq, Prod.mk.injEq] at p1
+        obtain ⟨rfl, rfl⟩ := p1
+        obtain ⟨l2, k2, r2, p2, f2, e2⟩ := formatLines_cons_inv _ _ _ _ f1
+        rw [processLine_header2] at p2
+        simp only [Option.some.injEq, Prod.mk.injEq] at p2
+        obtain ⟨rfl, rfl⟩ := p2
+        have t0 : trimLeftSpTab ([] : Bytes) = [] := rfl
+        rw [t0] at f2
+        obtain ⟨l3, k3, r3, p3, f3, e3⟩ := formatLines_cons_inv _ _ _ _ f2
+        rw [processLine_empty0] at p3
+        simp only [Option.some.injEq, Prod.mk.injEq] at p3
+        obtain ⟨rfl, rfl⟩ := p3
+        rw [e2, e3] at e1
+        simp only [List.cons.injEq, true_and] at e1
+        rw [← e1] at f3
+        exact f3
+    · exact R1
+  -- trailing empty lines go
+  obtain ⟨k, hk⟩ := trimTrailingEmpty_prefix body
+  generalize hT : trimTrailingEmpty body = T at h hk
+  have hTf : formatLines (T.map trimLeftSpTab) 0 = some T := by
+    apply formatLines_map_prefix T (List.replicate k []) 0
+    rw [← hk]; exact hbf
+  have hTsub : ∀ x ∈ T, x ∈ ls := fun x hx => hsub x (by rw [hk]; simp [hx])
+  have hTidem : trimTrailingEmpty T = T := by rw [← hT]; exact trimTrailingEmpty_idem body
+  -- second run
+  have hL2 : ∀ l ∈ header1 :: header2 :: [] :: T, Good l := by
+    intro l hl
+    simp only [List.mem_cons] at hl
+    rcases hl with rfl | rfl | rfl | hl
+    · exact good_header1
+    · exact good_header2
+    · exact good_nil
+    · exact R3' l (hTsub l hl)
+  subst h
+  have hs2 : scanLines (unlines (header1 :: header2 :: [] :: T)) = header1 :: header2 :: [] :: T :=
+    scanLines_unlines _ (fun l hl => (hL2 l hl).1) (fun l hl => (hL2 l hl).2)
+  have hp2 := parsedLines_of_good _ hL2
+  have t0 : trimLeftSpTab ([] : Bytes) = [] := rfl
+  have hacc2 : ((header1 :: header2 :: [] :: T).map trimLeftSpTab).all lineAccepted = true := by
+    simp only [List.map_cons, List.all_cons, header_trim.1, header_trim.2, t0, header_accepted.1, header_accepted.2.1,
+      header_accepted.2.2, Bool.true_and]
+    apply all_of_subset lineAccepted _ _ _ R2'
+    intro x hx
+    simp only [List.mem_map] at hx ⊢
+    obtain ⟨y, hy, rfl⟩ := hx
+    exact ⟨y, hTsub y hy, rfl⟩
+  have hf2 : formatLines ((header1 :: header2 :: [] :: T).map trimLeftSpTab) 0 = some (header1 :: header2 :: [] :: T) := by
+    simp only [List.map_cons, header_trim.1, header_trim.2, t0]
+    exact formatLines_cons _ _ _ _ _ _ processLine_header1
+      (formatLines_cons _ _ _ _ _ _ processLine_header2 (formatLines_cons _ _ _ _ _ _ processLine_empty0 hTf))
+  have hh2 : hasHeader (header1 :: header2 :: [] :: T) = true := by simp [hasHeader]
+  unfold formatFile
+  simp only [hs2, hacc2, hp2, hf2, hh2, Bool.not_true, Bool.false_eq_true, if_false, if_true, List.drop_succ_cons, List.drop_zero, hTidem]
+
+/-- the hypothesis is satisfiable and the conclusion is not vacuous: see the example below (a file with CRLF line ends). -/
+example : NoCRCR "a\r\n  b\n".toList := by
+  intro l hl
+  have : scanLines "a\r\n  b\n".toList = ["a".toList, "  b".toList] := by decide +kernel
+  rw [this] at hl
+  simp only [List.mem_cons, List.not_mem_nil, or_false] at hl
+  rcases hl with rfl | rfl <;> decide
 
 /-- non-vacuity: a small file with a block, a flag line and trailing blanks formats as expected, and the
     result is a fixed point -/
